@@ -126,6 +126,11 @@ class FunctionAnalysis:
                         continue
                     cand.pop(o["id"], None)
         self.cells = cand
+        # running pointers: non-escaping local pointer variables that only ever point into one fixed-size array (`p = buf; ... *p++ = x`); the cell's
+        # value is the byte offset from the start of that array
+        self.pcells = pointer_cells(self.P, fn)
+        for pid in self.pcells:
+            self.cells[pid] = fn.insts[pid]
         self._stable = {}
         self._part_cells = None
         self.pre = {}          # inst id -> list of states before the instruction
@@ -159,6 +164,8 @@ class FunctionAnalysis:
         return None
 
     def cell_type_range(self, cell):
+        if cell[0] == "a" and cell[1] in self.pcells:
+            return (-INF, INF)
         if cell[0] == "a":
             bits = tybits(self.cells[cell[1]]["aty"])
             al = self.cells[cell[1]]
@@ -180,14 +187,20 @@ class FunctionAnalysis:
             return LF(0)
         if k == "arg":
             return LF(0, {("arg", o["i"]): 1})
+        if k == "global" and self.pcells:
+            return LF(o.get("off", 0), {_addr_atom(("G", o["name"])): 1})
         if k != "inst" or depth > 12:
             return None
         i = self.fn.insts[o["id"]]
         op = i.op
         if op == "load":
+            c = self.cell_of_ptr(i["ptr"])
+            if c is not None and c[0] == "a" and c[1] in self.pcells:
+                # a running pointer: address of its array + offset
+                off = st.frozen[i.id] if st.frozen and i.id in st.frozen else LF(0, {("cell",) + c: 1})
+                return off.add(LF(0, {_addr_atom(self.pcells[c[1]][0]): 1}))
             if st.frozen and i.id in st.frozen:
                 return st.frozen[i.id]
-            c = self.cell_of_ptr(i["ptr"])
             if c is not None:
                 return LF(0, {("cell",) + c: 1})
             bits = tybits(i["ty"])
@@ -195,6 +208,21 @@ class FunctionAnalysis:
             if cr is not None:
                 return LF(0, {self._atom(o, "ctab", cr[0], cr[1]): 1})
             return LF(0, {self._atom(o, "load", -(1 << (bits - 1)) if bits < 64 else -INF, (1 << bits) - 1 if bits < 64 else INF): 1})
+        if self.pcells and op in ("getelementptr", "bitcast", "ptrtoint", "alloca"):
+            if op == "alloca":
+                return LF(0, {_addr_atom(("L", i.id)): 1})
+            if op in ("bitcast", "ptrtoint"):
+                return self.lf(i["a"], st, depth + 1)
+            r = self.lf(i["base"], st, depth + 1)
+            if r is None:
+                return None
+            r = r.add(LF(i["off"]))
+            for x in i["idx"]:
+                l_ = self.lf(x["v"], st, depth + 1)
+                if l_ is None:
+                    return None
+                r = r.add(l_.scale(x["scale"]))
+            return r
         if op in ("zext", "sext"):
             inner = self.lf(i["a"], st, depth + 1)
             if inner is None:
@@ -469,6 +497,16 @@ class FunctionAnalysis:
         return r
 
     # ---------------------------------------------------------------- transfer
+    def ptr_lf(self, o, st):
+        """pointer operand -> (array key, byte offset as a linear form) when it is an offset from one known array"""
+        l = self.lf(o, st)
+        if l is None:
+            return None
+        ad = [(a, c) for a, c in l.t.items() if a[0] == "expr" and a[2] == "addr"]
+        if len(ad) != 1 or ad[0][1] != 1:
+            return None
+        return ad[0][0][1][1], LF(l.k, {a: c for a, c in l.t.items() if a is not ad[0][0] and a != ad[0][0]})
+
     def kill(self, st, pred):
         for fk in list(st.facts):
             if any(pred(a) for a, c in fk):
@@ -477,8 +515,13 @@ class FunctionAnalysis:
     def store(self, inst, st):
         c = self.cell_of_ptr(inst["ptr"])
         if c is not None:
-            l = self.lf(inst["val"], st)
-            v = self.iv(inst["val"], st)
+            if c[0] == "a" and c[1] in self.pcells:
+                sp = self.ptr_lf(inst["val"], st)
+                l = sp[1] if sp is not None and sp[0] == self.pcells[c[1]][0] else None
+                v = self.iv_lf(l, st)
+            else:
+                l = self.lf(inst["val"], st)
+                v = self.iv(inst["val"], st)
             rng = self.cell_type_range(c) if c[0] == "a" else (-INF, INF)
             # stored bits are reinterpreted in the cell's own type
             bits = tybits(inst["vty"])
@@ -681,6 +724,12 @@ class FunctionAnalysis:
         if pred == "ne":
             if ia[0] == ia[1] == ib[0] == ib[1]:
                 return None
+            # a != b together with a <= b (a known difference bound) is a < b: `for (p = first; p != end; ++p)`
+            d = a.add(b, -1)
+            if d.t:
+                for dd in (d, d.scale(-1)):
+                    if self.iv_lf(dd, st)[1] == 0:
+                        st.facts[dd.key()] = min(st.facts.get(dd.key(), INF), -dd.k - 1)
             # exclude an endpoint
             if ib[0] == ib[1]:
                 if ia[0] == ib[0]:
@@ -1149,6 +1198,87 @@ class Engine:
 
 
 # ---------------------------------------------------------------------- obligations
+def _addr_atom(key):
+    return ("expr", ("addr", key), "addr", 1 << 16, 1 << 46)
+
+
+def _array_object(P, fn, o):
+    """operand that is a fixed-size array object itself -> (key, description) / None"""
+    if o.get("k") == "global":
+        g = P.globals.get(o["name"])
+        if g and g["type"].startswith("[") and "size" in g:
+            return ("G", o["name"]), ("global", o["name"], g["size"])
+    elif o.get("k") == "inst":
+        a = fn.insts[o["id"]]
+        if a.op == "alloca" and "size" in a.d and a["aty"].startswith("["):
+            return ("L", a.id), ("local", a.get("var", "%%%d" % a.id), a["size"])
+    return None
+
+
+def pointer_cells(P, fn, _cache={}):
+    """alloca id -> (array key, array description) for the local pointer variables that are only read and written directly and whose every
+    assigned value is an offset from one and the same fixed-size array (or from such a variable)"""
+    ck = (id(P), fn.name)
+    if ck in _cache:
+        return _cache[ck]
+    cand = {a.id: a for a in fn.allocas().values() if a["aty"].endswith("*") and not a.get("param") and "count" not in a.d}
+    for i in fn.all_insts():
+        for k, o in operands(i):
+            if o.get("k") == "inst" and o["id"] in cand and not (i.op in ("load", "store") and k == "ptr"):
+                cand.pop(o["id"], None)
+
+    def origin(o):
+        for _ in range(10):
+            ao = _array_object(P, fn, o)
+            if ao is not None:
+                return ("obj",) + ao
+            if o.get("k") != "inst":
+                return None
+            i = fn.insts[o["id"]]
+            if i.op == "bitcast":
+                o = i["a"]
+            elif i.op == "getelementptr":
+                o = i["base"]
+            elif i.op == "load" and i["ptr"].get("k") == "inst" and i["ptr"]["id"] in cand:
+                return ("var", i["ptr"]["id"])
+            else:
+                return None
+        return None
+    srcs = {}
+    for i in fn.all_insts():
+        if i.op == "store" and i["ptr"].get("k") == "inst" and i["ptr"]["id"] in cand:
+            srcs.setdefault(i["ptr"]["id"], []).append(origin(i["val"]))
+    base = {}
+    bad = {a for a in cand if not srcs.get(a) or any(x is None for x in srcs[a])}
+    changed = True
+    while changed:
+        changed = False
+        for a in cand:
+            if a in bad:
+                continue
+            for x in srcs[a]:
+                if x[0] == "var":
+                    if x[1] in bad:
+                        bad.add(a)
+                        changed = True
+                        break
+                    b = base.get(x[1])
+                    if b is None:
+                        continue
+                else:
+                    b = (x[1], x[2])
+                if a not in base:
+                    base[a] = b
+                    changed = True
+                elif base[a][0] != b[0]:
+                    bad.add(a)
+                    changed = True
+                    break
+    out = {a: b for a, b in base.items() if a not in bad}
+    _cache[ck] = out
+    return out
+
+
 def array_accesses(P, fn):
     """GEPs with a variable index whose base is a fixed-size array object (local or global): (gep inst, base desc, element count, elem size, index operand)"""
     out = []
@@ -1170,7 +1300,43 @@ def array_accesses(P, fn):
         if base is None:
             continue
         out.append((i, base))
+    # dereferences of running pointers into such arrays (`*p`, `p[k]` with p a local pointer variable that walks one array)
+    pc = pointer_cells(P, fn)
+    if pc:
+        for i in fn.all_insts():
+            if i.op not in ("load", "store"):
+                continue
+            o = i["ptr"]
+            for _ in range(6):
+                if o.get("k") != "inst":
+                    break
+                q = fn.insts[o["id"]]
+                if q.op == "bitcast":
+                    o = q["a"]
+                elif q.op == "getelementptr":
+                    o = q["base"]
+                else:
+                    break
+            if o.get("k") == "inst" and fn.insts[o["id"]].op == "load":
+                src = fn.insts[o["id"]]["ptr"]
+                if src.get("k") == "inst" and src["id"] in pc:
+                    out.append((i, pc[src["id"]][1]))
     return out
+
+
+def _only_formed(P, fn, gep):
+    """the address is only kept or compared (`end = buf + n`, `p != buf + n`), never dereferenced or handed on: it may be one past the end"""
+    uses = 0
+    for i in fn.all_insts():
+        for k, o in operands(i):
+            if o.get("k") == "inst" and o["id"] == gep.id:
+                uses += 1
+                if i.op == "store" and k == "val" and i["ptr"].get("k") == "inst" and i["ptr"]["id"] in pointer_cells(P, fn):
+                    continue
+                if i.op in ("icmp", "ptrtoint"):
+                    continue
+                return False
+    return uses > 0
 
 
 def check_gep(fa, gep, base):
@@ -1180,6 +1346,21 @@ def check_gep(fa, gep, base):
     if not states:
         return True, "unreachable"
     worst = None
+    if gep.op in ("load", "store"):
+        # through a running pointer: offset of the pointer from the start of its array
+        esz = (gep["size"] if gep.op == "load" and "size" in gep.d else max(1, tybits(gep.get("vty", gep.get("ty", "i8"))) // 8))
+        for st in states:
+            sp = fa.ptr_lf(gep["ptr"], st)
+            if sp is None:
+                return False, "the pointer is not an offset from its array"
+            iv = fa.iv_lf(sp[1], st)
+            if iv[0] < 0 or iv[1] + esz > base[2]:
+                worst = (iv, base[2], st)
+        if worst:
+            iv, size, st = worst
+            return False, "pointer offset in [%s, %s] for an object of %s bytes" % (iv[0], iv[1], size)
+        return True, "in bounds in %d abstract states" % len(states)
+    formed = base[0] in ("global", "local") and _only_formed(fa.P, fn, gep)
     for st in states:
         # byte offset = const off + sum scale*idx
         off = LF(gep["off"])
@@ -1193,7 +1374,7 @@ def check_gep(fa, gep, base):
         if bad:
             return False, "index is not a linear expression"
         iv = fa.iv_lf(off, st)
-        esz = gep["ressize"] or 1
+        esz = 0 if formed else (gep["ressize"] or 1)
         if base[0] in ("global", "local"):
             size = base[2]
             if iv[0] < 0 or iv[1] + esz > size:
